@@ -24,11 +24,12 @@ package main
 // The hosting side of every object value (client, the called service, another
 // service) is a dimension of the *values* and lives in drv (drv.objVals).
 //
-// Units that fail on the unchanged tree and await a decision are built only
-// when VERIF_C05_PENDING=1 (pendingObjectUnits lists them with the failure).
+// Units whose generated code fails on the unchanged tree (objects in
+// properties, structs, several-parameter signals, containers; `obj` as
+// parameter) are part of the universe like any other: they are listed findings
+// (known-findings.txt) and carry the observed failure in atom.known.
 
 import (
-	"os"
 	"strings"
 )
 
@@ -67,14 +68,6 @@ func withNeeds(atoms []*atom) []*atom {
 	return out
 }
 
-// pendingObjectUnits: units of the family that fail on the unchanged tree
-// (meta/idl/interface.go, commit of 2026-09-24) and are therefore withheld
-// until it is decided whether they are findings or out of scope. class -> what
-// was observed.
-var pendingObjectUnits = map[string]string{}
-
-func pendingEnabled() bool { return os.Getenv("VERIF_C05_PENDING") == "1" }
-
 func objectAtoms(tier string, id func(prefix string) string) []*atom {
 	var as []*atom
 	valueOf := map[string]*atom{}
@@ -93,14 +86,19 @@ func objectAtoms(tier string, id func(prefix string) string) []*atom {
 	// typesIn: the interfaces named in a type expression
 	typesIn := func(t string) []string {
 		var out []string
-		for _, w := range strings.FieldsFunc(t, func(r rune) bool { return r == '<' || r == '>' || r == ',' || r == ' ' }) {
+		for _, w := range strings.FieldsFunc(t, func(r rune) bool {
+			return !(r == '_' || r >= '0' && r <= '9' || r >= 'a' && r <= 'z' || r >= 'A' && r <= 'Z')
+		}) {
 			if isItf(w) {
 				out = append(out, w)
 			}
 		}
 		return out
 	}
-	unit := func(itf, group, pending string, ac action, decls ...string) {
+	// known: "" or what the generated code of the unit does on the unchanged tree
+	// (a listed finding); such a unit takes no part in the attribution of a
+	// failure common to its position class
+	unit := func(itf, group, known string, ac action, decls ...string) {
 		var ps []string
 		var needs []*atom
 		addNeed := func(t string) {
@@ -119,6 +117,15 @@ func objectAtoms(tier string, id func(prefix string) string) []*atom {
 		if valueOf[itf] != nil {
 			needs = append(needs, valueOf[itf])
 		}
+		// the position class: object-arg (objects among the parameters only),
+		// object-result (the result only), object-arg+result, object-signal, ...
+		if group == "object-result" {
+			for _, p := range ac.params {
+				if len(typesIn(p.typ)) > 0 {
+					group = "object-arg+result"
+				}
+			}
+		}
 		cls := group + "(" + strings.Join(ps, ",") + ")"
 		if ac.ret != "" {
 			cls += "->" + ac.ret
@@ -126,14 +133,8 @@ func objectAtoms(tier string, id func(prefix string) string) []*atom {
 		if itf != "Oa" {
 			cls = itf + "." + cls
 		}
-		if pending != "" {
-			pendingObjectUnits[cls] = pending
-			if !pendingEnabled() {
-				return
-			}
-		}
 		ac.name = ac.name + id("u")
-		as = append(as, &atom{id: id("o"), class: cls, object: true, group: group, itfName: itf, needs: needs, actions: []action{ac}, decls: decls, pending: pending})
+		as = append(as, &atom{id: id("o"), class: cls, object: true, group: group, itfName: itf, needs: needs, actions: []action{ac}, decls: decls, known: known})
 	}
 	m := func(name, ret string, ps ...param) action {
 		return action{kind: "method", name: name, params: ps, ret: ret}
@@ -181,6 +182,10 @@ func objectAtoms(tier string, id func(prefix string) string) []*atom {
 	unit("Pong", "object-arg", "", m("take", "int32", param{o, "Ping"}))
 	unit("Ping", "object-result", "", m("make", "Pong", i32("v")))
 	unit("Pong", "object-result", "", m("echo", "Ping", param{o, "Ping"}))
+	// ---- the untyped object reference `obj` (an object.ObjectReference value:
+	// data, nothing to use) where the generator supports it
+	unit("Oa", "object-result", "", m("make", "obj"))
+	unit("Oa", "object-signal", "", action{kind: "signal", name: "sent", params: []param{{o, "obj"}}})
 	if tier == "thorough" {
 		// three objects, scalars of other kinds around the object, the remaining
 		// type pairs
@@ -189,18 +194,19 @@ func objectAtoms(tier string, id func(prefix string) string) []*atom {
 		unit("Oa", "object-arg", "", m("take", "int32", param{"s", "str"}, param{o, "Early"}, param{"f", "float64"}))
 		unit("Oa", "object-arg", "", m("take", "int32", param{"a", "any"}, param{o, "Late"}))
 		unit("Oa", "object-arg", "", m("take", "int32", param{o, "Early"}, param{"l", "Vec<int32>"}))
-		unit("Oa", "object-arg", "", m("take", "int32", param{"p", "Pt"}, param{o, "Late"}), "Pt")
+		unit("Oa", "object-arg", "", m("take", "int32", param{"pt", "Pt"}, param{o, "Late"}), "Pt")
 		unit("Oa", "object-result", "", m("pick", "Late", param{o, "Late"}, i32("n"), param{q, "Late"}))
 		unit("Oa", "object-result", "", m("conv", "Late", param{o, "Early"}, param{q, "Early"}))
 		unit("Node", "object-arg", "", m("take", "int32", param{o, "Node"}, param{q, "Node"}, param{r, "Node"}))
 		unit("Node", "object-result", "", m("pick", "Node", param{o, "Node"}, param{q, "Node"}))
 	}
-	// ---- withheld: fail on the unchanged tree (built only with VERIF_C05_PENDING=1)
+	// ---- positions the generator does not support (listed findings)
 	const (
-		pProp   = "does not compile: the generated stub's onPropertyChange registers client-side objects through a channel `c` that only method bodies have (\"undefined: c\")"
-		pStruct = "does not compile: the generated read<Struct> function of a struct with an object member (also the struct of a signal with several parameters) refers to the receiver `p` of the enclosing proxy/stub method, which a free function does not have (\"undefined: p\")"
-		pCont   = "compiles; at run time the generated proxy hands the container of proxies to the reflection codec: \"encode param: cannot encode interface\" (argument) / \"decode result: failed to read value: cannot read interfacee: <T>Proxy\" (result)"
-		pObj    = "the untyped object type `obj` as a parameter does not compile: the proxy calls o.Proxy() on an object.ObjectReference (\"o.Proxy undefined\")"
+		pProp    = "does not compile: the generated stub's onPropertyChange registers client-side objects through a channel `c` that only method bodies have (\"undefined: c\")"
+		pStruct  = "does not compile: the generated read<Struct> function of a struct with an object member (also the struct of a signal with several parameters) refers to the receiver `p` of the enclosing proxy/stub method, which a free function does not have (\"undefined: p\")"
+		pCont    = "compiles; at run time the generated proxy hands the container of proxies to the reflection codec: \"encode param: cannot encode interface\" (argument) / \"decode result: failed to read value: cannot read interfacee: <T>Proxy\" (result)"
+		pObj     = "the untyped object type `obj` as a parameter does not compile: the proxy calls o.Proxy() on an object.ObjectReference (\"o.Proxy undefined\")"
+		pObjProp = "a property of the untyped object type `obj` does not compile in a package that uses no basic type elsewhere (\"undefined: basic\": the import is missing, as for `prop p(a: any)`)"
 	)
 	for _, t := range []string{"Early", "Late"} {
 		unit("Oa", "object-property", pProp, action{kind: "property", name: "held", params: []param{{o, t}}})
@@ -215,8 +221,7 @@ func objectAtoms(tier string, id func(prefix string) string) []*atom {
 	unit("Oa", "object-result", pCont, m("all", "Vec<Early>"))
 	unit("Oa", "object-result", pCont, m("all", "Map<str,Late>"))
 	unit("Oa", "object-arg", pObj, m("take", "int32", param{o, "obj"}))
-	unit("Oa", "object-result", pObj, m("make", "obj"))
-	unit("Oa", "object-signal", pObj, action{kind: "signal", name: "sent", params: []param{{o, "obj"}}})
+	unit("Oa", "object-property", pObjProp, action{kind: "property", name: "held", params: []param{{o, "obj"}}})
 	return as
 }
 
